@@ -23,6 +23,11 @@ def Term.deps : Term → List Atom
   | .isSignature t => t.deps
   | .sigsCorrect _ _ _ _ => []
 
+/-- `isinstance(a, Atom)` for an element of a `SIGNATURES_CORRECT` list -/
+def Leaf.atom? : Leaf → Option Atom
+  | .atom a => some a
+  | .const _ => none
+
 /-- what a solver factory returns: `(solution_f, target atoms, dependency atoms)` -/
 inductive Sol
   /-- `hash_lookup_solver`: `m["the_hash"]`, `m["1"]` -/
@@ -40,7 +45,7 @@ def Sol.targets : Sol → List Atom
 
 /-- `[a for a in m["sec_list"] if isinstance(a, Atom)]`; `()` for the other two -/
 def Sol.deps : Sol → List Atom
-  | .signing secs _ _ _ => secs.filterMap (fun l => match l with | .atom a => some a | .const _ => none)
+  | .signing secs _ _ _ => secs.filterMap Leaf.atom?
   | _ => []
 
 /-- `constraint_matches(c, pattern)` for the pattern of one registered solver, and the factory applied to the match.
@@ -50,7 +55,7 @@ def matchSolver : Gen.Solve.SolverId → Term → Option (Except Sign.Err Sol)
   | .hashLookup, .equal (.const h) (.hash160 (.atom v)) => some (.ok (.hashLookup h v))
   | .constantEquality, .equal (.atom v) (.const c) => some (.ok (.constEq v c))
   | .signing, .sigsCorrect secs sigs w code =>
-    match sigs.mapM (fun l => match l with | .atom a => some a | .const _ => none) with
+    match sigs.mapM Leaf.atom? with
     | some atoms => some (.ok (.signing secs atoms w code))
     | none => some (.error .unsupported)
   | .unknown _, _ => some (.error .unsupported)
@@ -108,6 +113,11 @@ def depsUnsolved (sv : Solved) : List Atom → Except Sign.Err Bool
     | some none => .ok true
     | some (some _) => depsUnsolved sv r
 
+/-- `solved_values.get(sec_key, sec_key)` -/
+def Leaf.value (sv : Solved) : Leaf → Option Bytes
+  | .const b => some b
+  | .atom x => (sv.get x).join
+
 /-- `solution(solved_values, **kwargs)`: the dict it returns -/
 def Sol.apply (a : SolveArgs) (existing : List Bytes) (sv : Solved) : Sol → Except Sign.Err (List (Atom × Bytes))
   | .hashLookup h target =>
@@ -120,7 +130,7 @@ def Sol.apply (a : SolveArgs) (existing : List Bytes) (sv : Solved) : Sol → Ex
   | .constEq v c => .ok [(v, c)]
   | .signing secs sigs w code =>
     -- `solved_values.get(sec_key, sec_key)` for every listed key
-    match secs.mapM (fun l => match l with | .const b => some b | .atom x => (sv.get x).join) with
+    match secs.mapM (Leaf.value sv) with
     | none => .error .unsupported                    -- excluded by the dependency test
     | some keys =>
       match signingSolver a.C a.lookup (a.sighash w code) keys sigs.length existing a.ht a.placeholder with
